@@ -185,6 +185,14 @@ func (c *FnCtx) leaves(t types.Type) []Leaf {
 func pkgQual(p *types.Package) string { return p.Name() }
 
 func typeKey(t types.Type) string {
+	if b, ok := t.(*types.Basic); ok {
+		switch b.Name() {
+		case "byte":
+			return "uint8"
+		case "rune":
+			return "int32"
+		}
+	}
 	s := types.TypeString(t, pkgQual)
 	if len(s) > 60 {
 		// long anonymous types: shorten deterministically
